@@ -37,28 +37,28 @@ package ast
 //@ ensures s.text == old(s.text) + nodeStr(self)
 
 //@ func (Comment).String
-//@ props C07 C11 C15 C19
+//@ props C06 C07 C11 C15 C19
 //@ ensures result == commentStr(c.Text)
 
 //@ func (String).String
-//@ props C07 C11 C15 C19
+//@ props C06 C07 C11 C15 C19
 //@ ensures result == "\"" + s.Text + "\""
 
 //@ func (Ident).String
-//@ props C07 C11 C15 C19
+//@ props C06 C07 C11 C15 C19
 //@ ensures result == i.Name
 
 //@ func (Command).String
-//@ props C07 C11 C15 C19
+//@ props C06 C07 C11 C15 C19
 //@ ensures result == c.Command
 
 //@ func (Assign).String
-//@ props C07 C11 C15 C19
+//@ props C06 C07 C11 C15 C19
 //@ requires a.Value != nil
 //@ ensures result == a.Name.Name + " := " + nodeStr(a.Value) + "\n"
 
 //@ func (Function).String
-//@ props C07 C11 C15 C19
+//@ props C06 C07 C11 C15 C19
 //@ requires ArgsOK(f.Arguments)
 //@ ensures result == funcStr(f)
 //@ loop 0: invariant 0 <= $i && $i <= len(f.Arguments) && len(args) == $i
@@ -67,7 +67,7 @@ package ast
 //@ at call Join#0: use join_nodes(args, f.Arguments, len(f.Arguments))
 
 //@ func (Task).String
-//@ props C07 C11 C15 C19
+//@ props C06 C07 C11 C15 C19
 //@ requires ArgsOK(t.Dependencies) && ArgsOK(t.Outputs)
 //@ ensures result == taskStr(t)
 //@ loop 0: invariant 0 <= $i && $i <= len(t.Dependencies) && len(deps) == $i
@@ -90,7 +90,7 @@ package ast
 //@ loop 3: decreases len(commands) - $i
 
 //@ func (Tree).Write
-//@ props C07 C11 C15 C19
+//@ props C06 C07 C11 C15 C19
 //@ requires forall k int :: {t.Nodes[k]} 0 <= k && k < len(t.Nodes) ==> t.Nodes[k] != nil
 //@ modifies s.text
 //@ ensures s.text == old(s.text) + treeStr(t.Nodes, len(t.Nodes))
@@ -98,6 +98,6 @@ package ast
 //@ loop 0: decreases len(t.Nodes) - $i
 
 //@ func (Tree).String
-//@ props C07 C11 C15 C19
+//@ props C06 C07 C11 C15 C19
 //@ requires forall k int :: {t.Nodes[k]} 0 <= k && k < len(t.Nodes) ==> t.Nodes[k] != nil
 //@ ensures result == treeStr(t.Nodes, len(t.Nodes))
